@@ -504,6 +504,9 @@ def main():
     workdir = os.path.join(CACHE, "run", "%s-%d" % (pid, os.getpid()))
     os.makedirs(workdir, exist_ok=True)
     ev_path = os.path.join(VERIF, "evidence", pid + ".json")
+    if REPO_UNDER_TEST != "/repo":
+        # runs against a scratch copy (seeded changes) must not overwrite the evidence of /repo runs
+        ev_path = os.path.join(CACHE, "evidence-scratch", pid + ".json")
     os.makedirs(os.path.dirname(ev_path), exist_ok=True)
 
     broken = []        # proof / tie obligations that no longer check
